@@ -432,7 +432,24 @@ func checkTraces(rep *lib.Report) {
 		rep.Fail("harness-cfg-traces", err.Error(), nil, true)
 		return
 	}
-	res, err := taint.Analyze(cfg, prog, pkgs)
+	// in-process run of the analysis whose termination is the question: watchdog
+	type anaRes struct {
+		res taint.AnalysisResult
+		err error
+	}
+	anaCh := make(chan anaRes, 1)
+	go func() {
+		r, e := taint.Analyze(cfg, prog, pkgs)
+		anaCh <- anaRes{r, e}
+	}()
+	var res taint.AnalysisResult
+	select {
+	case a := <-anaCh:
+		res, err = a.res, a.err
+	case <-time.After(180 * time.Second):
+		rep.Fail("trace-program-diverges", "taint.Analyze did not return within 180 s on the 40-line recursive program of the trace correspondence (a/b/c mutually recursive, default configuration)", []byte(traceProg), false)
+		return
+	}
 	if res.State == nil {
 		rep.Fail("harness-analyze-traces", fmt.Sprintf("taint.Analyze returned no state: %v", err), nil, true)
 		return
